@@ -19,6 +19,7 @@ package main
 import (
 	"go/ast"
 	"go/token"
+	"regexp"
 	"sort"
 	"strings"
 )
@@ -746,4 +747,101 @@ func (x *hxExtractor) checkViewRet(fd *ast.FuncDecl) {
 		x.prog.Facts.CheckViewRet = hxAddUnique(x.prog.Facts.CheckViewRet, txt)
 		return true
 	})
+}
+
+var hcAssignRe = regexp.MustCompile(`([A-Za-z_]\w*)\s*=\s*$`)
+
+// hcBlockAfter: the statement or block that follows position i (after white space): its text.
+func hcBlockAfter(rest string) string {
+	i := 0
+	for i < len(rest) && (rest[i] == ' ' || rest[i] == '\t' || rest[i] == '\n' || rest[i] == '\r') {
+		i++
+	}
+	if i < len(rest) && rest[i] == '{' {
+		d := 0
+		for j := i; j < len(rest); j++ {
+			if rest[j] == '{' {
+				d++
+			} else if rest[j] == '}' {
+				d--
+				if d == 0 {
+					return rest[i+1 : j]
+				}
+			}
+		}
+		return ""
+	}
+	if j := strings.Index(rest[i:], ";"); j >= 0 {
+		return rest[i : i+j+1]
+	}
+	return ""
+}
+
+func hcRaises(block string) bool {
+	for _, m := range hcCallRe.FindAllStringSubmatch(block, -1) {
+		if hcRaising[m[1]] {
+			return true
+		}
+	}
+	return false
+}
+
+// hcErrChecks: for every call of the Go callback cb in C function f, how the C code tests the returned error value
+// (`r` stands for the variable that receives it, `call` for the call itself) and whether the guarded statement
+// raises a Lua error.
+func hcErrChecks(f *HCFunc, cb string) [][4]string {
+	var out [][4]string
+	re := regexp.MustCompile(`\b` + regexp.QuoteMeta(cb) + `\s*\(`)
+	for _, m := range re.FindAllStringIndex(f.Body, -1) {
+		open := m[1] - 1
+		cl := hcMatchParen(f.Body, open)
+		if cl < 0 {
+			continue
+		}
+		v := ""
+		if am := hcAssignRe.FindStringSubmatch(f.Body[:m[0]]); am != nil {
+			v = am[1]
+		}
+		row := [4]string{cb, f.Name, "unchecked", "noraise"}
+		// (a) the call sits inside the condition of an if
+		best, bestClose := -1, -1
+		for _, im := range hcIfRe.FindAllStringIndex(f.Body, -1) {
+			io := im[1] - 1
+			ic := hcMatchParen(f.Body, io)
+			if ic >= 0 && io < m[0] && cl < ic && io > best {
+				best, bestClose = io, ic
+			}
+		}
+		norm := func(cond string) string {
+			cond = strings.ReplaceAll(cond, f.Body[m[0]:cl+1], "call")
+			cond = strings.Join(strings.Fields(cond), " ")
+			if v != "" {
+				cond = regexp.MustCompile(`\b`+regexp.QuoteMeta(v)+`\b`).ReplaceAllString(cond, "r")
+			}
+			return cond
+		}
+		if best >= 0 {
+			row[2] = norm(f.Body[best+1 : bestClose])
+			if hcRaises(hcBlockAfter(f.Body[bestClose+1:])) {
+				row[3] = "raise"
+			}
+		} else if v != "" {
+			// (b) the first later `if` whose condition mentions the variable
+			vre := regexp.MustCompile(`\b` + regexp.QuoteMeta(v) + `\b`)
+			for _, im := range hcIfRe.FindAllStringIndex(f.Body[cl:], -1) {
+				io := cl + im[1] - 1
+				ic := hcMatchParen(f.Body, io)
+				if ic < 0 || !vre.MatchString(f.Body[io+1:ic]) {
+					continue
+				}
+				row[2] = norm(f.Body[io+1 : ic])
+				if hcRaises(hcBlockAfter(f.Body[ic+1:])) {
+					row[3] = "raise"
+				}
+				break
+			}
+		}
+		out = append(out, row)
+	}
+	return out
 }
